@@ -497,8 +497,13 @@ impl Prop for C11 {
                         error: error.then(|| "ENOENT:Put command refers to non-existent image".to_string()),
                     };
                     if *error {
-                        if let Some(cid) = sh.content_of.get(&id) {
-                            sh.permitted.insert(*cid);
+                        if let Some(cid) = sh.content_of.get(&id).copied() {
+                            sh.permitted.insert(cid);
+                            // the harness plays the terminal: having answered ENOENT it no longer holds
+                            // the image, nor any of its placements
+                            store.evict(id);
+                            sh.live.retain(|(c, _)| *c != cid);
+                            ctx.feat("terminal.image-evicted-by-error-response");
                         }
                     }
                     handler
